@@ -167,6 +167,17 @@ class Differ:
         argv = [resp.tob(a) for a in argv]
         name = argv[0].upper().decode("latin1")
         pre = self.model.typeclass(self.db, argv[1]) if len(argv) > 1 else "-"
+        if name in ("XGROUP", "XINFO") and len(argv) > 2:
+            # sub-commands: the key is the third word
+            name = "%s-%s" % (name, argv[1].upper().decode("latin1")[:16])
+            pre = self.model.typeclass(self.db, argv[2])
+        elif name == "XREADGROUP":
+            pre = self.model.typeclass(self.db, argv[-2]) if len(argv) > 3 else "-"
+            name += "-NOACK" if b"NOACK" in [x.upper() for x in argv] else ""
+        elif name == "XCLAIM":
+            name += "".join("-" + x.upper().decode() for x in argv if x.upper() in (b"FORCE", b"JUSTID"))
+        elif name == "XPENDING" and len(argv) > 3:
+            name += "-RANGE" + ("-CONSUMER" if len(argv) > 6 else "")
         exp = self.model.apply(self.db, argv)
         self.history.append(argv)
         self.res.evaluations += 1
